@@ -967,6 +967,13 @@ pub struct ServerPool {'''),
         }""", new="""        if tmp.is_empty() {
             continue;
         }"""),
+    dict(id="c19-inherited-plugins-need-parser", prop="C19", file="src/query_router.rs", expect="C19-R3",
+         what="plugins run only in pools whose parser is on for routing (D46 again)",
+         old="""        if self.pool_settings.plugins.is_some() {
+            return true;
+        }""", new="""        if self.pool_settings.query_parser_enabled && self.pool_settings.plugins.is_some() {
+            return true;
+        }"""),
     # ------------------------------------------------------------------ C17
     dict(id="c17-shutdown-checked-in-transaction", prop="C17", file="src/client.rs", expect="C17-R1",
          what="the transaction loop also reacts to the shutdown broadcast",
@@ -1174,7 +1181,7 @@ panic = "abort"
 '''),
     dict(id="c19-dispatch-follows-session-override", prop="C19", file="src/query_router.rs", expect="C19-R3",
          what="statement parsing follows the client's parser override again",
-         old='''        if self.pool_settings.query_parser_enabled && self.pool_settings.plugins.is_some() {
+         old='''        if self.pool_settings.plugins.is_some() {
             return true;
         }
 
